@@ -9,6 +9,7 @@
 (*   "{" "}" ":"       variable syntax                                     *)
 (*   "[" "]"           optional parts                                      *)
 (*   "(" "(?:" ")"     capturing / non-capturing group                     *)
+(*   "(?P<n>"          named group (capturing, although it starts "(?")    *)
 (*   "\\d+" "*" "?"    regex fragments                                     *)
 (* Verdict is three-valued:                                                *)
 (*   "reject"  the statement lists the definition as invalid: registration *)
@@ -22,7 +23,8 @@
 EXTENDS Integers, Sequences, FiniteSets, SequencesExt, TLC
 
 Lits   == {"/", "a", "x", "."}
-Opens  == {"(", "(?:"}
+Opens  == {"(", "(?:", "(?P<n>"}
+Capturing == {"(", "(?P<n>"}
 Count(d, S) == Cardinality({ i \in 1..Len(d) : d[i] \in S })
 IdxOf(d, S) == { i \in 1..Len(d) : d[i] \in S }
 
@@ -53,7 +55,7 @@ TrailClose(d) == LET nonClose == { i \in 1..Len(d) : d[i] # "]" } IN
 BadOptional(d) == IsDynamic(d) /\ CleanSpans(d) /\ (\A i \in 1..Len(d) : d[i] \in {"[", "]"} => ~InSpan(d, i))
                   /\ TrailClose(d) # Count(SubSeq(d, 1, Len(d) - TrailClose(d)), {"["})
 \* "a capturing group inside a variable regex": a '(' that does not start '(?' anywhere in the regex of a variable
-CapturingInVar(d) == \E s \in OneSpans(d) : \E i \in 1..Len(RegexOf(Body(d, s))) : RegexOf(Body(d, s))[i] = "("
+CapturingInVar(d) == \E s \in OneSpans(d) : \E i \in 1..Len(RegexOf(Body(d, s))) : RegexOf(Body(d, s))[i] \in Capturing
 \* "an uncompilable pattern": unbalanced groups in a definition that is compiled.  Only the text that reaches the
 \* regex counts: what stands outside the variables plus the regex part of each variable ('[' becomes '(?:' and ']'
 \* becomes ')?').  Definitions whose braces do not delimit variables cleanly get no verdict from this rule.
@@ -64,7 +66,7 @@ Depth(t, i, n) == IF n < 0 THEN -1 ELSE IF i > Len(t) THEN n
                   ELSE Depth(t, i + 1, IF t[i] \in Opens \cup {"["} THEN n + 1 ELSE IF t[i] \in {")", "]"} THEN n - 1 ELSE n)
 Unbalanced(d) == IsDynamic(d) /\ CleanSpans(d) /\ Depth(Counted(d), 1, 0) # 0
 \* a capturing group outside every variable shifts the captured values against the variable names (F21)
-CapturingOutsideVar(d) == IsDynamic(d) /\ CleanSpans(d) /\ \E i \in 1..Len(d) : d[i] = "(" /\ ~InSpan(d, i)
+CapturingOutsideVar(d) == IsDynamic(d) /\ CleanSpans(d) /\ \E i \in 1..Len(d) : d[i] \in Capturing /\ ~InSpan(d, i)
 
 InvalidPath(d) == BadOptional(d) \/ CapturingInVar(d) \/ Unbalanced(d)
 
